@@ -181,12 +181,23 @@ def make(case):
     if case["route"] == "parse":
         return stix2.parse(case["data"], allow_custom=case.get("allow", False))
     cls = find_class(case["cid"])
+    data = case["data"]
+    if case.get("prebuilt"):
+        # nested values handed over as library OBJECTS built beforehand (under allow_custom=True), deepest first
+        import copy
+        data = copy.deepcopy(data)
+        for sp in sorted(case["prebuilt"], key=lambda x: -len(x["path"])):
+            holder = data
+            for k in sp["path"][:-1]:
+                holder = holder[k]
+            sub = holder[sp["path"][-1]]
+            holder[sp["path"][-1]] = find_class(sp["cid"])(allow_custom=True, **{k: v for k, v in sub.items() if k != "type"})
     if case["route"] == "construct_positional":
         # Bundle(*members, **rest)
-        data = dict(case["data"])
+        data = dict(data)
         members = data.pop("objects", [])
         return cls(*members, allow_custom=case.get("allow", False), **data)
-    return cls(allow_custom=case.get("allow", False), **case["data"])
+    return cls(allow_custom=case.get("allow", False), **data)
 
 
 def derive(obj, how, allow):
